@@ -151,6 +151,37 @@ def check_exact(case, rec):
         f"kriging variance at the conditioning locations is {float(np.max(np.abs(v))):.3g}, expected 0 (tol {tolv:.3g})",
         dict(tags, kind="variance_at_data"),
     )
+    if cond_pos.shape[1] >= 2:
+        # the same request one location at a time (single-point calls take other code paths in the position transforms)
+        with quiet():
+            one = [lib(k, cond_pos[:, j : j + 1].copy(), _what="Krige.__call__ at one conditioning point", _tags=tags, **dict(kc.target_kwargs(cfg, cond_pos[:, j : j + 1])))
+                   for j in range(cond_pos.shape[1])]
+        f1 = np.array([float(np.ravel(o[0])[0]) for o in one])
+        v1 = np.array([float(np.ravel(o[1])[0]) for o in one])
+        e1 = np.abs(f1 - vals)
+        rec.label("one_point_per_call")
+        # a single point is rotated / stretched with other rounding than the batch: the target then sits at a distance d of rounding size
+        # from the datum, which models that are not Lipschitz at the origin (small hurst / nu / alpha) turn into cov(0) - cov(d) > 0
+        mdl = k.model
+        with quiet():
+            an = np.asarray(mdl.anis, dtype=float)
+            rr = float(np.max(np.abs(cond_pos))) * float(max(1.0, np.max(1.0 / an, initial=1.0))) + (float(mdl.geo_scale) if mdl.latlon else 0.0)
+            dd = 256.0 * np.finfo(float).eps * max(rr, 1e-300)
+            dC = abs(float(np.asarray(mdl.covariance(0.0))) - float(np.asarray(mdl.covariance(dd))))
+        ainv = cnd / max(float(mdl.var), 1e-300)
+        slack_f = ainv * math.sqrt(cond_pos.shape[1]) * dC * (float(np.max(np.abs(ref["est"]))) + float(np.max(np.abs(vals))) + unit) * amp
+        slack_v = 4.0 * dC * (1.0 + ainv * math.sqrt(cond_pos.shape[1]) * dC)
+        tolv_, tolf_ = tolv, tolf
+        tolf = tolf + slack_f
+        tolv = tolv + slack_v
+        require(bool(np.all(e1 <= tolf)),
+                f"kriging one conditioning location per call does not return the conditioning values: max deviation {float(np.max(e1)):.3g} (tol {float(np.max(tolf)):.3g}); "
+                f"all locations in one call deviate by {float(np.max(errf)):.3g}",
+                dict(tags, kind="not_exact_single_point"))
+        require(float(np.max(np.abs(v1))) <= tolv,
+                f"kriging variance at a conditioning location asked for alone is {float(np.max(np.abs(v1))):.3g}, expected 0 (tol {tolv:.3g})",
+                dict(tags, kind="variance_at_data_single_point"))
+        tolv, tolf = tolv_, tolf_
     if cfg["variant"] == "simple" and case.get("remean") is not None:
         # the data are honoured for whatever mean the object carries at the time of the call (estimate only, before and after a new mean)
         kw2 = dict(kw, return_var=False)
